@@ -632,7 +632,7 @@ class Interp:
                 self.bind(st, node.target, expand(node.value, st.vars, st.counter))
         elif isinstance(node, ast.AugAssign):
             if isinstance(node.target, ast.Name):
-                cur = expand(node.target, st.vars, st.counter)
+                cur = st.vars.get(node.target.id, ast.Name(id=node.target.id, ctx=ast.Load()))
                 new = ast.BinOp(left=cur, op=node.op, right=expand(node.value, st.vars, st.counter))
                 st.set(node.target.id, new)
             else:
@@ -657,8 +657,34 @@ class Interp:
         step = st.push("assume", test, polarity)
         if not self.prune:
             return True
+        known = self._empty_membership(st, test)
+        if known is not None:
+            return known == polarity
         expanded = expand(test, st.vars, st.counter)
         return self._assume(st, expanded, polarity)
+
+    @staticmethod
+    def _empty_membership(st: State, test) -> Optional[bool]:
+        """``x in C`` / ``x not in C`` where C is a still-empty local container literal."""
+        negate = False
+        while isinstance(test, ast.UnaryOp) and isinstance(test.op, ast.Not):
+            test, negate = test.operand, not negate
+        if not (isinstance(test, ast.Compare) and len(test.ops) == 1 and isinstance(test.ops[0], (ast.In, ast.NotIn))):
+            return None
+        right = test.comparators[0]
+        if not isinstance(right, ast.Name) or st.muts.get(right.id):
+            return None
+        value = st.vars.get(right.id)
+        empty = (
+            (isinstance(value, (ast.List, ast.Tuple, ast.Set)) and not value.elts)
+            or (isinstance(value, ast.Dict) and not value.keys)
+            or (isinstance(value, ast.Call) and isinstance(value.func, ast.Name)
+                and value.func.id in ("list", "dict", "set", "tuple") and not value.args and not value.keywords)
+        )
+        if not empty:
+            return None
+        result = isinstance(test.ops[0], ast.NotIn)
+        return (not result) if negate else result
 
     def _assume(self, st: State, test, polarity: bool) -> bool:
         while isinstance(test, ast.UnaryOp) and isinstance(test.op, ast.Not):
